@@ -62,7 +62,10 @@ def _work(args) -> dict:
         def probe(tv, v: int) -> None:
             j = erase(tv)
             j[p["name"]] = v
-            kwargs = {snake(kk): sub.build(vv) for kk, vv in tv.props.items()}
+            try:
+                kwargs = {snake(kk): sub.build(vv) for kk, vv in tv.props.items()}
+            except Exception:
+                return  # the valid surrounding cannot be built: C02's matter
             kwargs[attr] = v
             expect = lo <= v <= hi
             res["evaluations"] += 2
